@@ -21,7 +21,7 @@ type widSpec struct {
 	Arg  int
 }
 
-var widths = []widSpec{{"", false, 0}, {"0", false, 0}, {"1", false, 0}, {"7", false, 0}, {"12", false, 0}, {"1000", false, 0}, {"*", true, 9}, {"*", true, -6}}
+var widths = []widSpec{{"", false, 0}, {"0", false, 0}, {"1", false, 0}, {"7", false, 0}, {"12", false, 0}, {"1000", false, 0}, {"*", true, 9}, {"*", true, -6}, {"70", false, 0}}
 var precs = []widSpec{{"", false, 0}, {".", false, 0}, {".0", false, 0}, {".1", false, 0}, {".5", false, 0}, {".*", true, 2}}
 
 var letterVerbs = func() []rune {
@@ -119,7 +119,7 @@ func fullDirectives() DirectiveSpace {
 
 // quickDirectives: all 32 flag subsets x {none,7,*=-6} x {none,.1,.*} x 30 verbs.
 func quickDirectives() DirectiveSpace {
-	return DirectiveSpace{FlagSets: seq(32), Wids: []int{0, 3, 7}, Precs: []int{0, 3}, Verbs: []rune("vdsxXqtbcoOUeEfFgGTpwzZk!日‹")}
+	return DirectiveSpace{FlagSets: seq(32), Wids: []int{0, 3, 7, 8}, Precs: []int{0, 3}, Verbs: []rune("vdsxXqtbcoOUeEfFgGTpwzZk!日‹")}
 }
 
 // midDirectives: a smaller space for expensive products.
